@@ -86,6 +86,7 @@ def main():
                 cmd, pkg = demo_info(demo)
                 ddir = demo_dirs.get(v) or find_dir_for(cmd or ".", pkg, wt)
                 # a demo that is its own package runs from its own directory
+                os.makedirs(os.path.join(wt, ddir), exist_ok=True)
                 existing = [f for f in os.listdir(os.path.join(wt, ddir)) if f.endswith(".go") and not f.endswith("_test.go")]
                 expkg = None
                 if existing:
